@@ -340,6 +340,15 @@ def master_specs(fam):
                     t[0] *= tw["factor"]
                     t[3] *= tw.get("factor_y", 1)
                 g["components"][tw["comp"]]["t"] = t
+            elif tw["kind"] == "inline-component" and tw["comp"] < len(g.get("components", [])):
+                # in this master only, one component (a pure translation of a simple glyph) is merged into the glyph's own outline: the glyph is mixed here
+                # and a plain composite in the other masters
+                c = g["components"][tw["comp"]]
+                b = next((h for h in sp["glyphs"] if h["name"] == c["base"]), None)
+                if b is not None and b.get("contours") and not b.get("components") and list(c["t"][:4]) == [1, 0, 0, 1]:
+                    dx, dy = c["t"][4], c["t"][5]
+                    g["contours"] = list(g.get("contours", [])) + [[[p[0] + dx, p[1] + dy, p[2]] for p in ct] for ct in b["contours"]]
+                    g["components"] = [x for j, x in enumerate(g["components"]) if j != tw["comp"]]
             elif tw["kind"] == "empty-glyph":
                 # an empty placeholder for this glyph in this master only (no contours, components or anchors)
                 g["contours"], g["components"], g["anchors"] = [], [], []
